@@ -10,6 +10,7 @@ import optrun
 from optmodel import TRUTHY, FALSY
 
 PROP = "C03"
+CONCURRENT = "parse"   # extra phase: lib/mtindep.py (parsers used by several threads at once)
 LEVEL = "exploration"
 RULE = ("full matrix {given on the command line or not} x {env unbound, unset, set empty, set to a "
         "string} x {default or none} x {optional or required} x {option, multi-option, toggle} x "
